@@ -56,7 +56,18 @@ func (t *stepTrace) hook(_ *postscript.Interpreter, s postscript.VerifStep) {
 	t.peakSt = max(t.peakSt, s.StackLen)
 	t.peakDS = max(t.peakDS, s.DictStackLen)
 	t.peakEx = max(t.peakEx, s.ExecDepth)
+	if s.StackLen > 20000 || s.DictStackLen > 2000 || s.ExecDepth > 2000 {
+		// far beyond every limit of the interpreter: growth is not being cut
+		// off. Name look-up walks the whole dictionary stack, so letting the
+		// run continue to its budget would take hours; abandon it (the
+		// monitor's own panic, recovered in runTraced).
+		panic(growthAbort{})
+	}
 }
+
+type growthAbort struct{}
+
+var errGrowthAbandoned = fmt.Errorf("run abandoned by the monitor: a stack grew far beyond its limit")
 
 // runTraced runs text in a fresh interpreter with the given budget.
 func runTraced(text string, budget int, checkStart bool) (*postscript.Interpreter, error, *stepTrace) {
@@ -65,7 +76,18 @@ func runTraced(text string, budget int, checkStart bool) (*postscript.Interprete
 	intp.MaxOps = budget
 	intp.CheckStart = checkStart
 	postscript.VerifStepHook = tr.hook
-	err := intp.ExecuteString(text)
+	var err error
+	func() {
+		defer func() {
+			if p := recover(); p != nil {
+				if _, ok := p.(growthAbort); !ok {
+					panic(p)
+				}
+				err = errGrowthAbandoned
+			}
+		}()
+		err = intp.ExecuteString(text)
+	}()
 	postscript.VerifStepHook = nil
 	return intp, err, tr
 }
@@ -318,4 +340,16 @@ var c11Shapes = []struct {
 	{"string-maxint", "9223372036854775807 string", []string{"limitcheck", "VMerror"}},
 	{"dict-maxint", "9223372036854775807 dict", []string{"limitcheck", "VMerror"}},
 	{"array-in-loop", "{ 16777216 array } loop", []string{"limitcheck", "VMerror"}},
+	// the dictionary stack is full when eexec pushes systemdict on top of it; begin must still refuse
+	{"begin-loop-inside-eexec-on-full-dictstack", "18 { userdict begin } repeat currentfile eexec\n" + hexSection("{ userdict begin } loop "), []string{"dictstackoverflow"}},
+	{"begin-loop-inside-eexec", "currentfile eexec\n" + hexSection("{ 1 dict begin } loop "), []string{"dictstackoverflow"}},
+	{"push-loop-inside-eexec", "currentfile eexec\n" + hexSection("{ 1 } loop "), []string{"stackoverflow"}},
+	{"recursion-inside-eexec", "currentfile eexec\n" + hexSection("/p { p 1 } def p "), []string{"execstackoverflow"}},
+}
+
+// hexSection encrypts plain (with four zero bytes in front) for eexec, in
+// hexadecimal form.
+func hexSection(plain string) string {
+	c := ref.Encrypt(append([]byte{0, 0, 0, 0}, plain...), 55665, nil)
+	return fmt.Sprintf("%x", c)
 }
